@@ -127,8 +127,8 @@ def check_pair(ctx, pattern, parsed, mode, path, br=None):
     try:
         got = br.match_path(path)
     except Exception as e:
-        sig = classify(parsed, mode, path)
-        ctx.mismatch(sig or 'match-raises', 'match_path(%r) on %r/%s raised %r' % (path, pattern, mode, e),
+        # raising is never the recorded behaviour of any known finding: a failed conversion must make the route not match
+        ctx.mismatch('match-raises', 'match_path(%r) on %r/%s raised %r' % (path, pattern, mode, e),
                      {'pattern': pattern, 'mode': mode, 'path': path})
         return False
     ok = (got is None and not exp) or (got is not None and any(U.same_assignment(got, a) for a in exp))
